@@ -12,6 +12,10 @@ const header = "From GL Require Import Common.Bytes Io.IoSpec Io.IoImpl Io.IoSys
 
 func main() {
 	a := lib.ParseArgs()
+	if a.Cmd == "child" {
+		childMain()
+		return
+	}
 	if a.Cmd != "run" {
 		fmt.Fprintln(os.Stderr, "unknown command", a.Cmd)
 		os.Exit(2)
@@ -119,6 +123,14 @@ func corpus(w *lib.Writer) {
 		{Init: lit("l1\nl2\nl3\nl4\n"), Ops: []Op{open("r"), rd(0, cnt(1)), Op{T: "lines", H: 0, K: 1}, op("close", 0), Op{T: "next", H: 0, K: 2}, Op{T: "next", H: 0, K: 1}, snp}},
 		{Init: lit("l1\nl2\nl3\nl4\n"), Ops: []Op{open("r+"), Op{T: "lines", H: 0, K: 0, Via: "io"}, Op{T: "next", H: 0, K: 1}, rd(0, cnt(1)), Op{T: "close", H: 0, Via: "io"}, Op{T: "next", H: 0, K: 64}, snp}},
 		{Init: encode(patterned(0, 9000)), Ops: []Op{open("rb"), Op{T: "lines", H: 0, K: 2}, sk(0, "set", 4000), Op{T: "next", H: 0, K: 1}, op("close", 0), Op{T: "next", H: 0, K: 1}, open("r"), Op{T: "lines", H: 1, K: 64}, Op{T: "next", H: 1, K: 1}, op("close", 1), Op{T: "next", H: 1, K: 1}, snp}},
+		// the default streams: io.output(name) is mode "w" (truncates), io.input(name) mode "r";
+		// io.read/io.write/io.lines()/io.close() are the methods of the default handles
+		{Init: lit("0123456789"), Ops: []Op{Op{T: "open", Mode: "w", Via: "io"}, Op{T: "write", H: 0, Strs: [][]Seg{lit("ab")}, Via: "io"}, Op{T: "flush", H: 0, Via: "io0"}, snp, Op{T: "close", H: 0, Via: "io0"}, snp}},
+		{Init: lit("l1\nl2\nl3\n"), Ops: []Op{Op{T: "open", Mode: "r", Via: "io"}, Op{T: "read", H: 0, Fmts: []Fmt{cnt(1), fl}, Via: "io"}, Op{T: "lines", H: 0, K: 1, Via: "io"}, Op{T: "write", H: 0, Strs: [][]Seg{lit("x")}, Via: "io"}, Op{T: "close", H: 0, Via: "io"}, Op{T: "lines", H: 0, K: 0, Via: "io"}, Op{T: "read", H: 0, Fmts: []Fmt{fa}, Via: "io"}, Op{T: "next", H: 0, K: 1}, snp}},
+		// counts without limit: negative (C Lua's size_t conversion) and beyond any file; read(2^40)
+		// used to kill the process with "out of memory"
+		{Init: lit("abc\ndef"), Ops: []Op{open("r"), rd(0, cnt(1)), rd(0, cnt(-1)), rd(0, cnt(-1)), sk(0, "set", 2), rd(0, cnt(1 << 31)), sk(0, "set", 0), rd(0, cnt(1 << 40)), rd(0, cnt(1 << 53)), op("close", 0), snp}},
+		{Init: encode(patterned(0, 9000)), Ops: []Op{open("r+"), rd(0, cnt(8191)), rd(0, cnt(2)), sk(0, "set", 1), rd(0, cnt(-5)), rd(0, cnt(0)), sk(0, "set", 808), rd(0, cnt(8192), cnt(1 << 40)), op("close", 0), snp}},
 		// boundaries: counts across the buffer, read(0) at the end, holes
 		{Init: encode(patterned(0, 9000)), Ops: []Op{open("r+"), rd(0, cnt(4095)), rd(0, cnt(2)), rd(0, cnt(5000)), rd(0, cnt(0)), rd(0, cnt(1)), sk(0, "set", 4096), wr(0, "ZZ"), sk(0, "cur", -3), rd(0, cnt(4)), sk(0, "end", 5), wr(0, "!"), op("close", 0), snp}},
 		{Init: encode(patterned(0, 4096)), Ops: []Op{open("r"), rd(0, cnt(4096)), rd(0, cnt(0)), sk(0, "set", -1), sk(0, "end", -1), rd(0, fa), rd(0, fa), rd(0, fl), op("close", 0), snp}},
